@@ -357,56 +357,44 @@ Proof. intros Hp Hl Hk H. destruct k; [reflexivity|]. unfold badm.
   - inversion H1; subst. rewrite Hpad. reflexivity.
   - unfold consumed. rewrite Hd. assert (span_sum (firstn (S k) fs) <=? blimit = true) by lia. rewrite H. cbn [andb]. apply orb_true_r. Qed.
 
+Lemma block_lo' off blimit cap : 0 <= off -> cap < two31 -> in_i32 blimit = true ->
+  Z.min (sat_add32 off blimit) cap = Z.min (off + blimit) cap.
+Proof. unfold sat_add32, in_i32, two31. intros Ho Hc H. lia. Qed.
+
 Theorem block_poll_judged m l bits init im fs blimit :
   ctx bits init (im_pos im) l fs -> im_closed im = false -> in_i32 blimit = true ->
   let off := im_pos im mod 2 ^ bits in
-  if in_i32 (off + blimit) then
-    exists ret ds ws im', image_block_poll m l im blimit = Ok (ret, ds, ws, im') /\
-      judge_block (im_session im) blimit (im_pos im) off fs
-        (ret, map (block_obs im (match ret with Ok v => v | _ => 0 end)) ds, ws, im_pos im') = true
-  else match m with
-       | Debug => image_block_poll m l im blimit = Panic
-       | Release => image_block_poll m l im blimit = Ok (Ok 0, [], [], im)
-       end.
+  exists ret ds ws im', image_block_poll m l im blimit = Ok (ret, ds, ws, im') /\
+    judge_block (im_session im) blimit (im_pos im) off fs
+      (ret, map (block_obs im (match ret with Ok v => v | _ => 0 end)) ds, ws, im_pos im') = true.
 Proof. intros Hc Hcl Hbl off. pose proof Hc as [Htl Hi Hwf _].
   destruct (wf_call_facts _ _ _ _ Hwf) as (Hb & Hii & Hp & Hn & Ho & Hal & Hf & Hbase).
   pose proof (wf_frames_pos _ _ _ _ Hf) as Hfp. fold off in Ho, Hal, Hf, Hbase.
   assert (H30 : 2 ^ bits <= 2 ^ 30) by (apply Z.pow_le_mono_r; lia). change (2 ^ 30) with 1073741824 in H30.
-  unfold image_block_poll. rewrite Hcl, (ctx_sel _ _ _ _ _ Hc). cbn [bind]. fold off. unfold add32, chk32.
-  destruct (in_i32 (off + blimit)) eqn:Ei.
-  - cbn [bind]. rewrite Htl.
-    destruct (term_scan_spec (Z.min (off + blimit) (2 ^ bits)) fs off Hfp) as (k & Hk & Hcase & He).
-    rewrite He. set (len := span_sum (firstn k fs)) in *.
-    replace (off + len - off) with len by lia.
-    pose proof (span_sum_nonneg _ (frames_pos_firstn k fs Hfp)) as Hlen. fold len in Hlen.
-    assert (Hbadm : badm blimit fs k = true).
-    { eapply (badm_of_scan blimit off (Z.min (off + blimit) (2 ^ bits))); eauto. lia. }
-    destruct (off + len >? off) eqn:Eg.
-    + (* a block is handed over *)
-      destruct k as [|k']; [unfold len in Eg; cbn [firstn span_sum] in Eg; lia|].
-      destruct fs as [|f r]; [cbn in Hk; lia|].
-      do 4 eexists. split; [reflexivity|]. unfold judge_block.
-      apply (any_upto_intro _ _ (S k') Hk). unfold judge_block_run, consumed. fold len.
-      rewrite out_eqb_refl_ok, Hbadm. cbn [andb map block_obs list_eqb]. unfold fobs_eqb.
-      rewrite !Z.eqb_refl, out_eqb_refl_ok. cbn [andb].
-      unfold after_writes, set_pos. cbn [last im_pos]. unfold writes_ok. cbn [nondecr last forallb].
-      rewrite !Z.eqb_refl. assert (im_pos im <=? im_pos im + len = true) by lia. rewrite H. reflexivity.
-    + (* nothing *)
-      assert (len = 0) by lia.
-      do 4 eexists. split; [reflexivity|]. unfold judge_block.
-      apply (any_upto_intro _ _ 0%nat ltac:(lia)). unfold judge_block_run, consumed. cbn [firstn span_sum map].
-      rewrite H. rewrite out_eqb_refl_ok. cbn [badm andb]. unfold writes_ok. cbn [nondecr last forallb].
-      rewrite Z.add_0_r, !Z.eqb_refl. reflexivity.
-  - destruct m; [reflexivity|]. cbn [bind]. rewrite Htl.
-    assert (Hw : wrap32 (off + blimit) < 0).
-    { unfold in_i32, two31 in *. unfold wrap32, two31, two32.
-      assert (2147483648 <= off + blimit < 4294967296) by lia.
-      replace ((off + blimit + 2147483648) mod 4294967296) with (off + blimit + 2147483648 - 4294967296).
-      - lia.
-      - apply Z.mod_unique with 1; lia. }
-    unfold term_scan. rewrite scan_loop_eq.
-    assert (off <? Z.min (wrap32 (off + blimit)) (2 ^ bits) = false) by lia. rewrite H.
-    replace (off - off) with 0 by lia. assert (off >? off = false) by lia. rewrite H0. reflexivity. Qed.
+  unfold image_block_poll. rewrite Hcl, (ctx_sel _ _ _ _ _ Hc). cbn [bind]. fold off.
+  rewrite Htl. rewrite (block_lo' off blimit (2 ^ bits)) by (unfold two31; lia || assumption).
+  destruct (term_scan_spec (Z.min (off + blimit) (2 ^ bits)) fs off Hfp) as (k & Hk & Hcase & He).
+  rewrite He. set (len := span_sum (firstn k fs)) in *.
+  replace (off + len - off) with len by lia.
+  pose proof (span_sum_nonneg _ (frames_pos_firstn k fs Hfp)) as Hlen. fold len in Hlen.
+  assert (Hbadm : badm blimit fs k = true).
+  { eapply (badm_of_scan blimit off (Z.min (off + blimit) (2 ^ bits))); eauto. lia. }
+  destruct (off + len >? off) eqn:Eg.
+  + (* a block is handed over *)
+    destruct k as [|k']; [unfold len in Eg; cbn [firstn span_sum] in Eg; lia|].
+    destruct fs as [|f r]; [cbn in Hk; lia|].
+    do 4 eexists. split; [reflexivity|]. unfold judge_block.
+    apply (any_upto_intro _ _ (S k') Hk). unfold judge_block_run, consumed. fold len.
+    rewrite out_eqb_refl_ok, Hbadm. cbn [andb map block_obs list_eqb]. unfold fobs_eqb.
+    rewrite !Z.eqb_refl, out_eqb_refl_ok. cbn [andb].
+    unfold after_writes, set_pos. cbn [last im_pos]. unfold writes_ok. cbn [nondecr last forallb].
+    rewrite !Z.eqb_refl. assert (im_pos im <=? im_pos im + len = true) by lia. rewrite H. reflexivity.
+  + (* nothing *)
+    assert (len = 0) by lia.
+    do 4 eexists. split; [reflexivity|]. unfold judge_block.
+    apply (any_upto_intro _ _ 0%nat ltac:(lia)). unfold judge_block_run, consumed. cbn [firstn span_sum map].
+    rewrite H. rewrite out_eqb_refl_ok. cbn [badm andb]. unfold writes_ok. cbn [nondecr last forallb].
+    rewrite Z.add_0_r, !Z.eqb_refl. reflexivity. Qed.
 
 (* ---- one step of a history ---- *)
 Definition static_eq (im im' : image) : Prop :=
@@ -444,8 +432,7 @@ Lemma block_static m l im bl r : image_block_poll m l im bl = Ok r ->
   let '(_, _, _, im') := r in static_eq im im'.
 Proof. unfold image_block_poll. destruct (im_closed im); [intros H; inversion H; apply static_eq_refl|].
   destruct (sel l (im_pos im)) as [[fs off]| | | |]; cbn [bind]; try discriminate.
-  destruct (add32 m off bl); cbn [bind]; try discriminate.
-  destruct (term_scan fs off (Z.min a (l_tlen l)) >? off); intros H; inversion H; subst;
+  destruct (term_scan fs off (Z.min (sat_add32 off bl) (l_tlen l)) >? off); intros H; inversion H; subst;
     [apply static_eq_after|apply static_eq_refl]. Qed.
 
 Lemma part_mk_log bits init session segs i : 0 <= i < 3 -> part (mk_log bits init session segs) i = part_of segs i.
@@ -573,21 +560,10 @@ Proof. intros Hb [Hst Hse] Hok. destruct ms as [segs im]. cbn [fst snd] in *. su
       * apply (rel_next session segs im); auto using static_eq_refl.
     + destruct (wf_call bits init pos fs) eqn:Hwf.
       * pose proof (block_poll_judged m l bits init im fs blimit (Hctx eq_refl) Hcl Hok) as Hbp. cbv zeta in Hbp.
-        fold pos in Hbp. destruct (in_i32 (pos mod 2 ^ bits + blimit)) eqn:Ei.
-        -- destruct Hbp as (ret & ds & ws & im' & He & Hj). rewrite He. pose proof He as He'. apply block_static in He'.
-           split.
-           ++ cbn [judge_op]. fold fs. rewrite Hwf. cbn [negb]. unfold block_excluded. rewrite Ei. cbn [negb].
-              rewrite Hse in Hj. exact Hj.
-           ++ apply (rel_next session segs im); auto.
-        -- destruct m; rewrite Hbp.
-           ++ split; [|apply (rel_next session segs im); auto using static_eq_refl].
-              cbn [judge_op]. fold fs. rewrite Hwf. cbn [negb]. unfold block_excluded. rewrite Ei. cbn [negb].
-              rewrite judge_idle_intro by reflexivity. reflexivity.
-           ++ cbn [map]. split; [|apply (rel_next session segs im); auto using static_eq_refl].
-              cbn [judge_op]. fold fs. rewrite Hwf. cbn [negb]. unfold block_excluded. rewrite Ei. cbn [negb].
-              apply orb_true_iff. right. unfold judge_block. apply (any_upto_intro _ _ 0%nat ltac:(lia)).
-              unfold judge_block_run, consumed. cbn [firstn span_sum out_eqb badm andb]. rewrite Z.eqb_refl.
-              unfold writes_ok. cbn [nondecr last forallb]. rewrite Z.add_0_r, !Z.eqb_refl. reflexivity.
+        fold pos in Hbp. destruct Hbp as (ret & ds & ws & im' & He & Hj). rewrite He. pose proof He as He'. apply block_static in He'.
+        split.
+        -- cbn [judge_op]. fold fs. rewrite Hwf. cbn [negb]. rewrite Hse in Hj. exact Hj.
+        -- apply (rel_next session segs im); auto.
       * destruct (image_block_poll m l im blimit) as [[[[ret ds] ws] im']| | | |] eqn:He.
         1:{ split; [cbn [judge_op]; fold fs; rewrite Hwf; reflexivity|].
             apply block_static in He. apply (rel_next session segs im); auto. }
